@@ -1,0 +1,41 @@
+//go:build verif
+
+package search
+
+import (
+	"github.com/paulsonkoly/chess-3/move"
+
+	. "github.com/paulsonkoly/chess-3/chess"
+)
+
+// Verification hooks (build tag verif). Add-only.
+
+// VerifBufIx exposes the PV buffer index computation.
+func VerifBufIx(ply Depth) int { return bufIx(ply) }
+
+// VerifLog exposes the LMR log table.
+func VerifLog() []int { return append([]int(nil), log[:]...) }
+
+// VerifLmr exposes the LMR reduction.
+func VerifLmr(d Depth, mCount int, improving bool, nType Node) Depth {
+	return lmr(d, mCount, improving, nType)
+}
+
+// VerifPV is a handle on a PV buffer for driving it directly.
+type VerifPV struct{ p *pv }
+
+func VerifNewPV() VerifPV                       { return VerifPV{newPV()} }
+func (v VerifPV) Insert(ply Depth, m move.Move) { v.p.insert(ply, m) }
+func (v VerifPV) SetNull(ply Depth)             { v.p.setNull(ply) }
+func (v VerifPV) Active() []move.Move           { return append([]move.Move(nil), v.p.active()...) }
+func (v VerifPV) Line(ply Depth) []move.Move {
+	i := bufIx(ply)
+	return append([]move.Move(nil), v.p.moves[i:i+int(v.p.depth[ply])]...)
+}
+func VerifPVSize() int { return len(pv{}.moves) }
+
+// VerifGen exposes the generation counter of a Search.
+func (s *Search) VerifGen() int { return int(s.gen) }
+
+// VerifAborted exposes the abort flag.
+func (s *Search) VerifAborted() bool { return s.aborted }
